@@ -22,8 +22,14 @@ MUTANTS = [
     M("docx-image-target-glued", X + "ms_modern/docx_extractor.py", "        image_path = _resolve_word_target(target)\n", "        image_path = \"word/\" + target\n", "C14-REF"),
     M("pptx-absolute-target-under-slide-dir", X + "ms_modern/pptx_extractor.py", "        target_parts = [part for part in target.split(\"/\") if part and part != \"..\"]\n        return \"/\".join(target_parts)\n", "        target_parts = [part for part in target.split(\"/\") if part and part != \"..\"]\n        target = \"/\".join(target_parts)\n        return f\"{base_dir}/{target}\"\n", "C14-REF"),
     M("xlsx-sheet-part-by-position", X + "ms_modern/xlsx_extractor.py", "            if sheet_idx < len(sheet_parts) and sheet_parts[sheet_idx]:\n                part_dir, _, part_name = sheet_parts[sheet_idx].rpartition(\"/\")\n                rels_path = f\"{part_dir}/_rels/{part_name}.rels\"\n            else:\n                rels_path = f\"xl/worksheets/_rels/sheet{sheet_idx + 1}.xml.rels\"\n", "            rels_path = f\"xl/worksheets/_rels/sheet{sheet_idx + 1}.xml.rels\"\n", "C14-REF"),
+    Variant("opc-target-percent-decoded", [("sharepoint2text/parsing/extractors/util/zip_utils.py", "import zipfile\n", "import zipfile\nfrom urllib.parse import unquote\n"), ("sharepoint2text/parsing/extractors/util/zip_utils.py", "                \"target\": rel.get(\"Target\", \"\"),\n", "                \"target\": unquote(rel.get(\"Target\", \"\")),\n")], "C14-REF"),
+    M("opc-target-lowercased", "sharepoint2text/parsing/extractors/util/zip_utils.py", "                \"target\": rel.get(\"Target\", \"\"),\n", "                \"target\": rel.get(\"Target\", \"\").lower(),\n", "C14-REF"),
+    M("zipcontext-exists-strips-slash", "sharepoint2text/parsing/extractors/util/zip_context.py", "        return path in self._namelist\n", "        return path.lstrip(\"/\") in self._namelist\n", "C14-REF"),
+    M("zipcontext-read-strips-dot-slash-set", "sharepoint2text/parsing/extractors/util/zip_context.py", "        return self._zip.read(path)\n", "        return self._zip.read(path.lstrip(\"./\"))\n", "C14-REF"),
 ]
 TWINS = [
+    T("opc-target-via-local", "sharepoint2text/parsing/extractors/util/zip_utils.py", "    for rel in find_relationship_elements(rels_root):\n        relationships.append(\n            {\n                \"id\": rel.get(\"Id\", \"\"),\n                \"type\": rel.get(\"Type\", \"\"),\n                \"target\": rel.get(\"Target\", \"\"),\n", "    for rel in find_relationship_elements(rels_root):\n        target = str(rel.get(\"Target\", \"\"))\n        relationships.append(\n            {\n                \"id\": rel.get(\"Id\", \"\"),\n                \"type\": rel.get(\"Type\", \"\"),\n                \"target\": target,\n"),
+    T("zipcontext-exists-or-false", "sharepoint2text/parsing/extractors/util/zip_context.py", "        return path in self._namelist\n", "        return path in self._namelist or False\n"),
     T("epub-href-fragment-cut-by-partition", "sharepoint2text/parsing/extractors/epub_extractor.py", "        href = unquote(href.split(\"#\", 1)[0])\n", "        href = unquote(href.partition(\"#\")[0])\n"),
     T("docx-image-skip-on-empty-bytes", X + "ms_modern/docx_extractor.py", "            if img_data is None:\n                continue\n", "            if img_data is None or not target:\n                continue\n"),
     T("docx-target-resolver-early-return", X + "ms_modern/docx_extractor.py", "    if target.startswith(\"/\"):\n        path = target\n    else:\n        path = \"word/\" + target\n", "    path = target\n    if not target.startswith(\"/\"):\n        path = \"word/\" + target\n"),
